@@ -233,9 +233,136 @@ struct Config {
     }
 };
 
+// Two fields of DIFFERENT extents looked up at the same time (half the threads each): state that a
+// layer memoises per call site (an extent-dependent cache, a lazily built table) is only written
+// concurrently when the fields differ.
+template <typename ORDER, int INTERP, std::size_t N>
+static void two_fields(const std::string & oname, unsigned T, unsigned rep, uint64_t seed)
+{
+    using B = typename stack_of<ORDER, INTERP, false, N>::type;
+    using F = covfie::field<B>;
+    using V = typename F::view_t;
+    const std::string nm = std::string("two-fields/") + iname[INTERP] + oname;
+    vh::set_case("%s T=%u rep=%u", nm.c_str(), T, rep);
+    const std::size_t extA[3] = {16, 16, 16}, extB[3] = {5, 12, 7};
+    auto build = [&](const std::size_t * e) {
+        covfie::utility::nd_size<N> ext;
+        std::size_t mx = 0;
+        for (std::size_t k = 0; k < N; ++k) {
+            ext[k] = e[k];
+            mx = e[k] > mx ? e[k] : mx;
+        }
+        std::size_t side = 1, len = 1;
+        while (side < mx) side *= 2;
+        for (std::size_t k = 0; k < N; ++k) len *= side;  // large enough for every order
+        F f = [&] {
+            if constexpr (INTERP != I_NONE)
+                return F(covfie::make_parameter_pack(std::monostate{}, typename ORDER::configuration_t(ext), covfie::utility::nd_size<1>{len}));
+            else
+                return F(covfie::make_parameter_pack(typename ORDER::configuration_t(ext), covfie::utility::nd_size<1>{len}));
+        }();
+        const typename ORDER::owning_data_t * od;
+        if constexpr (INTERP != I_NONE)
+            od = &f.backend().get_backend();
+        else
+            od = &f.backend();
+        typename ORDER::non_owning_data_t raw(*od);
+        uint64_t c[N] = {};
+        for (;;) {
+            typename ORDER::contravariant_input_t::vector_t cc;
+            uint64_t id = 0;
+            for (std::size_t k = 0; k < N; ++k) {
+                cc[k] = c[k];
+                id = id * 32 + c[k];
+            }
+            for (std::size_t j = 0; j < 3; ++j) raw.at(cc)[j] = (float)((id * 3 + j) % 2039);
+            std::size_t k = 0;
+            while (k < N && ++c[k] >= e[k]) c[k++] = 0;
+            if (k == N) break;
+        }
+        return f;
+    };
+    F fa = build(extA), fb = build(extB);
+    const unsigned nops = 1500;
+    auto lookup = [](const V & v, const float * x) {
+        typename F::coordinate_t c;
+        for (std::size_t k = 0; k < N; ++k) {
+            if constexpr (INTERP == I_NONE)
+                c[k] = (std::size_t)x[k];
+            else
+                c[k] = x[k];
+        }
+        typename F::output_t r = v.at(c);
+        uint64_t h = 1469598103934665603ull;
+        for (std::size_t j = 0; j < 3; ++j) {
+            float val = r[j];
+            h = vh::mix(h, val);
+        }
+        return h;
+    };
+    std::vector<std::vector<float>> ops(T);
+    for (unsigned t = 0; t < T; ++t) {
+        vh::Rng rng(seed * 7368787 + t * 131 + rep);
+        const std::size_t * e = (t & 1) ? extB : extA;
+        ops[t].resize(nops * 3);
+        for (unsigned i = 0; i < nops; ++i)
+            for (std::size_t k = 0; k < 3; ++k) {
+                float x = (float)(rng.unit() * (double)(e[k < N ? k : 0] - 1.001));
+                ops[t][i * 3 + k] = INTERP == I_NONE ? (float)(std::size_t)x : x;
+            }
+    }
+    std::vector<uint64_t> want(T, 0), got(T, 0);
+    {
+        V va(fa), vb(fb);
+        for (unsigned t = 0; t < T; ++t)
+            for (unsigned i = 0; i < nops; ++i) want[t] = want[t] * 1099511628211ull + lookup((t & 1) ? vb : va, &ops[t][i * 3]);
+    }
+    std::vector<std::thread> th;
+    std::atomic<unsigned> go{0};
+    std::vector<std::vector<uint64_t>> ticks(T);
+    for (unsigned t = 0; t < T; ++t)
+        th.emplace_back([&, t] {
+            go.fetch_add(1, std::memory_order_relaxed);
+            while (go.load(std::memory_order_relaxed) < T) {
+            }
+            V v((t & 1) ? fb : fa);
+            uint64_t d = 0;
+            for (unsigned i = 0; i < nops; ++i) {
+                if (i % 64 == 0) ticks[t].push_back(g_ticket.fetch_add(1, std::memory_order_relaxed));
+                d = d * 1099511628211ull + lookup(v, &ops[t][i * 3]);
+            }
+            got[t] = d;
+        });
+    for (auto & t : th) t.join();
+    vh::ev((uint64_t)T * nops);
+    vh::stat("threads_started", T);
+    for (unsigned t = 0; t < T; ++t)
+        if (got[t] != want[t]) vh::viol("digest:" + nm, "thread " + std::to_string(t) + " of " + std::to_string(T) + " (field " + ((t & 1) ? "5x12x7" : "16^3") + ") obtained values that differ from the sequential execution");
+    unsigned pairs = 0;
+    uint64_t sig = 1469598103934665603ull;
+    std::vector<std::pair<uint64_t, unsigned>> order;
+    for (unsigned a = 0; a < T; ++a) {
+        for (uint64_t tk : ticks[a]) order.push_back({tk, a});
+        for (unsigned b = a + 1; b < T; ++b)
+            if (!ticks[a].empty() && !ticks[b].empty() && ticks[a].front() < ticks[b].back() && ticks[b].front() < ticks[a].back()) ++pairs;
+    }
+    std::sort(order.begin(), order.end());
+    for (auto & o : order) sig = vh::mix(sig, o.second);
+    vh::stat("overlapping_thread_pairs", pairs);
+    vh::seen("interleaving_signatures", sig);
+    if (pairs >= 1) vh::nontrivial(sig);
+    vh::sample(nm, "T=" + std::to_string(T) + " two fields (16^N and 5x12x7) overlapping pairs=" + std::to_string(pairs) + " digests equal sequential", 1);
+}
+
 template <typename ORDER, std::size_t N>
 static void all_stacks(const std::string & oname, uint64_t seed, unsigned R)
 {
+    for (unsigned rep = 0; rep < R; ++rep)
+        for (unsigned T : {2u, 6u, 16u}) {
+            two_fields<ORDER, I_NONE, N>(oname, T, rep, seed);
+            two_fields<ORDER, I_LINEAR, N>(oname, T, rep, seed);
+            two_fields<ORDER, I_NN, N>(oname, T, rep, seed);
+        }
     const unsigned Ts[] = {2, 4, 8, 16};
     for (unsigned rep = 0; rep < R; ++rep) {
         for (unsigned T : Ts) {
